@@ -1133,7 +1133,7 @@ def judge_driver(ctx, c, r):
 
 # ---- ensembles and joint fits
 def gen_multi_case(rng, which):
-    kind = rng.choice(["steady_state", "time_course"] if which == "joint" else ["steady_state", "time_course", "protocol"])
+    kind = rng.choice(["steady_state", "time_course", "protocol", "mixed"] if which == "joint" else ["steady_state", "time_course", "protocol"])
     true = {"k1": 1.0, "k2": 2.0, "k3": 1.0}
     names = rng.choice([["k2"], ["k2", "k3"], ["k3", "k2"]])
     p0 = {n: true[n] * rng.choice([0.75, 1.5]) for n in names}
@@ -1207,23 +1207,33 @@ def real_joint_case(c):
     from mxlpy import fit
     from mxlpy.fit import losses
     true = c["true"]
-    full, proto = make_data(c["kind"], true)
-    data = full[["x", "y"]]
     models = [_member(true, mb) for mb in c["members"]]
     before = [fingerprint(m) for m in models]
     mini = ScriptedMinimizer(c["cands"])
-    fn = {"steady_state": fit.joint_steady_state, "time_course": fit.joint_time_course}[c["kind"]]
-    res = fn([fit.FitSettings(model=m, data=data) for m in models], p0=dict(c["p0"]), minimizer=mini,
-             loss_fn=getattr(losses, c["loss"]), as_deepcopy=c["as_deepcopy"], max_workers=2)
+    resids = {"steady_state": fit.steady_state_residual, "time_course": fit.time_course_residual,
+              "protocol": fit.protocol_time_course_residual}
+    # the kind of every member: one kind for the joint_<kind> routines, alternating kinds for joint_mixed
+    kinds = [["steady_state", "time_course", "protocol"][i % 3] if c["kind"] == "mixed" else c["kind"] for i in range(len(models))]
+    made = {k: make_data(k, true) for k in set(kinds)}
+    datas = [made[k][0][["x", "y"]] for k in kinds]
+    protos = [made[k][1] for k in kinds]
+    kw = dict(p0=dict(c["p0"]), minimizer=mini, loss_fn=getattr(losses, c["loss"]), as_deepcopy=c["as_deepcopy"], max_workers=2)
+    if c["kind"] == "mixed":
+        res = fit.joint_mixed([fit.MixedSettings(model=m, data=d, residual_fn=resids[k], protocol=pr)
+                               for m, d, k, pr in zip(models, datas, kinds, protos)], **kw)
+    else:
+        fn = {"steady_state": fit.joint_steady_state, "time_course": fit.joint_time_course,
+              "protocol": fit.joint_protocol_time_course}[c["kind"]]
+        res = fn([fit.FitSettings(model=m, data=d, protocol=pr) for m, d, pr in zip(models, datas, protos)], **kw)
     v = res.value
     out = {"fit": {"best": [[k, ext(x)] for k, x in v.best_pars.items()], "loss": ext(v.loss)} if type(v).__name__ == "JointFit" else None,
            "trace": [[[ext(x) for x in xs], ext(f)] for xs, f in mini.trace], "inputs_same": [fingerprint(m) == b for m, b in zip(models, before)]}
     # every member's own residual at every evaluated point, computed here on fresh models
-    resid = {"steady_state": fit.steady_state_residual, "time_course": fit.time_course_residual}[c["kind"]]
     parts = []
     for xs, _ in mini.trace:
         upd = dict(zip(c["p0"], xs))
-        parts.append([ext(resid(upd, settings_for(c["kind"], _member(true, mb), data, None, c["loss"], True, c["p0"]))) for mb in c["members"]])
+        parts.append([ext(resids[k](upd, settings_for(k, _member(true, mb), d, pr, c["loss"], True, c["p0"])))
+                      for mb, k, d, pr in zip(c["members"], kinds, datas, protos)])
     out["parts"] = parts
     return out
 
@@ -1402,7 +1412,7 @@ def run(ctx):
     set_cases += [{"loss": "mean_absolute_percentage", "d": c["d"], "p": c["p"], "on": False}
                   for c in (gen_loss_case(rng, "mean_absolute_percentage") for _ in range(ctx.n(12, 200)))]
     # the pool-spawning cases go first so that they overlap with the cheap ones
-    fit_cases = [gen_multi_case(rng, "ens") for _ in range(ctx.n(2, 12))] + [gen_multi_case(rng, "joint") for _ in range(ctx.n(2, 8))]
+    fit_cases = [gen_multi_case(rng, "ens") for _ in range(ctx.n(2, 12))] + [gen_multi_case(rng, "joint") for _ in range(ctx.n(3, 10))]
     fit_cases += gen_fit_cases(ctx) + [gen_quad_case(rng) for _ in range(ctx.n(40, 600))]
     # every global method once on a fixed request whose box for k1 EXCLUDES the target (5): the methods that take
     # bounds end on the box, basinhopping ignores it (F-C20-9)
